@@ -140,8 +140,14 @@ def check(case, ctx):
         got, exp = outcome(lambda: amax(*xs)), outcome(lambda: max(*xs))
         expect_flush = 0
     elif helper == "asift":
-        got = outcome(lambda: asift(pred, it()))
+        first = outcome(lambda: asift(pred, it()))
+        if first[0] == "ok" and isinstance(first[1], tuple) and all(isinstance(p, list) for p in first[1]):
+            for part in first[1]:
+                part.append("appended by the caller")      # results belong to the caller: a later call must not see this
+        calls[:] = []
+        got = outcome(lambda: asift(pred, it())) if kind != "iter" else outcome(lambda: asift(pred, iter(xs)))
         exp = outcome(lambda: ([x for x in xs if pred_sync(x)], [x for x in xs if not pred_sync(x)]))
+        expect_flush = 2 * expect_flush
     elif helper == "amax_noargs":
         got, exp = outcome(lambda: amax(key=key)), outcome(lambda: max(key=keyfn))
         expect_flush = 0
@@ -202,6 +208,76 @@ def reduce_case(case):
         yield dict(case, blocking=False)
     if case["reverse"]:
         yield dict(case, reverse=False)
+
+
+# ---- several helper calls alive at the same time ---------------------------------------------------
+
+def strategy_together(tier):
+    elem = st.integers(-3, 3)
+    call = st.fixed_dictionaries({"helper": st.sampled_from(["amap", "asorted", "amax", "amin", "afilter"]), "xs": st.lists(elem, min_size=1, max_size=5)})
+    return st.fixed_dictionaries({"calls": st.lists(call, min_size=2, max_size=3), "blocking": st.booleans(), "nested": st.booleans()})
+
+
+def check_together(case, ctx):
+    """two or three helper calls issued in one yield (their per-element calls interleave at the flushes), optionally with a
+    helper call inside the function handed to amap: each call equals its built-in counterpart, as if it ran alone"""
+    from asynq import asynq as A
+    from asynq.tools import amap, afilter, asorted, amax, amin
+    engine.reset_process_state()
+    env = engine.Env({"root": {"id": 0, "body": []}, "prio": {}})
+    n = [0]
+
+    @A()
+    def key(x):
+        n[0] += 1
+        if case["blocking"]:
+            yield engine.HItem(env, "a", 0, "ok", n[0])
+        if case["nested"]:
+            inner = yield amap.asynq(ident, [x, x + 1])
+            if inner != [x, x + 1]:
+                return ["inner amap returned", inner]
+        return x
+
+    @A()
+    def ident(x):
+        n[0] += 1
+        if case["blocking"]:
+            yield engine.HItem(env, "a", 0, "ok", n[0])
+        return x
+
+    @A()
+    def pred(x):
+        v = yield key.asynq(x)
+        return v % 2 == 0
+
+    def fut(c):
+        h, xs = c["helper"], list(c["xs"])
+        if h == "amap":
+            return amap.asynq(key, xs), list(xs)
+        if h == "afilter":
+            return afilter.asynq(pred, xs), [x for x in xs if x % 2 == 0]
+        if h == "asorted":
+            return asorted.asynq(xs, key=key), sorted(xs)
+        return (amax if h == "amax" else amin).asynq(xs, key=key), (max if h == "amax" else min)(xs)
+
+    @A()
+    def both():
+        pairs = [fut(c) for c in case["calls"]]
+        got = yield [p[0] for p in pairs]
+        return got, [p[1] for p in pairs]
+    viol = []
+    try:
+        got, exp = both()
+    except Exception as e:
+        got, exp = ["raised", type(e).__name__, str(e)[:100]], None
+    if got != exp:
+        viol.append(("C14.builtin:together", "helper calls %r issued in one yield (%s per-element functions%s) returned %r, their built-in counterparts give %r"
+                     % ([(c["helper"], c["xs"]) for c in case["calls"]], "blocking" if case["blocking"] else "immediate", ", each calling amap itself" if case["nested"] else "", got, exp)))
+    ctx.label("calls=%d" % len(case["calls"]))
+    ctx.label("nested-helper-call", case["nested"])
+    ctx.label("blocking", case["blocking"])
+    ctx.nontrivial(case, case["blocking"] or case["nested"])
+    return viol
 
 
 # ---- aretry grid ----------------------------------------------------------------------------------
@@ -309,4 +385,5 @@ def check_retry(case, ctx):
 
 
 SUBS = [Sub("helpers", check, strategy=strategy, reduce=reduce_case, examples={"quick": 10000, "thorough": 400000}),
+        Sub("together", check_together, strategy=strategy_together, examples={"quick": 2000, "thorough": 100000}),
         Sub("aretry-grid", check_retry, enumerate=retry_cells)]
